@@ -1,10 +1,11 @@
 """Translator plug-in for C08: ties the hand-written Lean model to the *text* of the modelled functions.
 
-For each modelled function the comment-stripped, whitespace-free body must be one of the forms the
-Lean model was written from.  Four functions have a single modelled form; three have two (the code
-as found, and the code after the repair proposed in fixes/C08-*.diff) and the form found is exported
-as a Bool in lean/AITB/Gen/C08Variant.lean, which the driver uses to pick the model of the code that
-exists.  A body in no known form is a broken tie (ExtractError): the model no longer describes it."""
+For each modelled function the comment-stripped, whitespace-free body must be the form the Lean model
+was written from (round 2: the code after the three merged repairs 7704892 / 699bf84 / 3edb50d; the
+pre-repair forms are no longer accepted).  `projectToProbability` has two accepted texts that have the
+SAME exact-arithmetic model: the code as it is, and the code after fixes/C08-4 (overflow-safe
+normalisation); which one is present is exported as `projectOverflowSafe`.  A body in no known form is
+a broken tie (ExtractError): the model no longer describes it."""
 import re
 import extract as E
 
@@ -38,28 +39,59 @@ SITES = [
         '{doublep=0.0;for(size_ti=0;i<size;++i){constdoublevalue=static_cast<double>(in[i]);if(value<0.0)returnfalse;p+=value;}if(checkDifferentSmall(p,1.0))returnfalse;returntrue;}': None}),
     ('denseSampler', HPP, r'size_t\s+sampleProbability\s*\(\s*const\s+size_t\s+d\s*,\s*const\s+T\s*&\s*in\s*,\s*G\s*&\s*generator\s*\)\s*\{', {
         '{doublep=probabilityDistribution(generator);for(size_ti=0;i<d;++i){if(in[i]>p)returni;p-=in[i];}returnd-1;}': None}),
-    ('sparseHasEndTest', HPP, r'size_t\s+sampleProbability\s*\(\s*const\s+size_t\s+d\s*,\s*const\s+SparseMatrix2D::ConstRowXpr\s*&\s*in\s*,\s*G\s*&\s*generator\s*\)\s*\{', {
-        '{doublep=probabilityDistribution(generator);for(SparseMatrix2D::ConstRowXpr::InnerIteratori(in,0);;++i){if(i.value()>p)returni.col();p-=i.value();}returnd-1;}': False,
-        '{doublep=probabilityDistribution(generator);size_tlast=d-1;for(SparseMatrix2D::ConstRowXpr::InnerIteratori(in,0);i;++i){if(i.value()>p)returni.col();p-=i.value();last=i.col();}returnlast;}': True}),
+    ('sparseSampler', HPP, r'size_t\s+sampleProbability\s*\(\s*const\s+size_t\s+d\s*,\s*const\s+SparseMatrix2D::ConstRowXpr\s*&\s*in\s*,\s*G\s*&\s*generator\s*\)\s*\{', {
+        '{doublep=probabilityDistribution(generator);size_tlast=d-1;for(SparseMatrix2D::ConstRowXpr::InnerIteratori(in,0);i;++i){if(i.value()>p)returni.col();p-=i.value();last=i.col();}returnlast;}': None}),
     ('makeRandomProbability', HPP, r'ProbabilityVector\s+makeRandomProbability\s*\(\s*const\s+size_t\s+S\s*,\s*G\s*&\s*generator\s*\)\s*\{', {
         '{ProbabilityVectorb(S);double*bData=b.data();bData[0]=0.0;for(size_ts=0;s<S-1;++s)bData[s]=probabilityDistribution(generator);std::sort(bData,bData+S-1);doublehelper1=bData[0],helper2;for(size_ts=1;s<S-1;++s){helper2=bData[s];bData[s]-=helper1;helper1=helper2;}bData[S-1]=1.0-helper1;returnb;}': None}),
     ('aliasSample', HPP, r'size_t\s+sampleProbability\s*\(\s*G\s*&\s*generator\s*\)\s*const\s*\{', {
         '{constautox=sampleDistribution_(generator);constinti=x;constautoy=x-i;if(y<prob_[i])returni;returnalias_[i];}': None}),
-    ('projectFixed', CPP, r'ProbabilityVector\s+projectToProbability\s*\(\s*const\s+Vector\s*&\s*v\s*\)\s*\{', {
-        '{ProbabilityVectorretval(v.size());doublesum=0.0;size_tcount=0;for(autoi=0;i<v.size();++i){if(v[i]<0.0)retval[i]=0.0;else{retval[i]=1.0;++count;sum+=v[i];}}if(checkEqualSmall(sum,1.0))returnretval;if(checkEqualSmall(sum,0.0)){retval.array()+=1.0/v.size();}elseif(sum>1.0){retval.array()*=v.array()/sum;}else{constautodiff=(1.0-sum)/count;retval.array()*=(v.array()+diff);}returnretval;}': False,
-        '{ProbabilityVectorretval(v.size());doublesum=0.0;size_tcount=0;for(autoi=0;i<v.size();++i){if(v[i]<0.0)retval[i]=0.0;else{retval[i]=1.0;++count;sum+=v[i];}}if(checkEqualSmall(sum,1.0)){retval.array()*=v.array();}elseif(checkEqualSmall(sum,0.0)){retval.fill(1.0/v.size());}elseif(sum>1.0){retval.array()*=v.array()/sum;}else{constautodiff=(1.0-sum)/count;retval.array()*=(v.array()+diff);}returnretval;}': True}),
-    ('voseFixed', CPP, r'VoseAliasSampler::VoseAliasSampler\s*\(\s*const\s+ProbabilityVector\s*&\s*p\s*\)\s*:.*?\{', {
-        '{constautoavg=1.0/prob_.size();autosmall=0,large=0;while(small<prob_.size()&&prob_[small]>=avg)++small;while(large<prob_.size()&&prob_[large]<avg)++large;autosmallCheckpoint=small;while(small<prob_.size()&&large<prob_.size()){prob_[large]=(prob_[large]+prob_[small])-avg;alias_[small]=large;if(prob_[large]<avg){small=large;++large;while(large<prob_.size()&&prob_[large]<avg)++large;}else{small=smallCheckpoint+1;while(small<prob_.size()&&prob_[small]>=avg)++small;smallCheckpoint=small;}}autox=std::min(large,small);while(x<prob_.size()){prob_[x]=1.0;alias_[x]=x;++x;while(x<prob_.size()&&alias_[x]!=0)++x;}prob_*=prob_.size();}': False,
-        '{constsize_tunassigned=prob_.size();constautoavg=1.0/prob_.size();autosmall=0,large=0;while(small<prob_.size()&&prob_[small]>=avg)++small;while(large<prob_.size()&&prob_[large]<avg)++large;autosmallCheckpoint=small;while(small<prob_.size()&&large<prob_.size()){prob_[large]=(prob_[large]+prob_[small])-avg;alias_[small]=large;if(prob_[large]<avg){small=large;++large;while(large<prob_.size()&&prob_[large]<avg)++large;}else{small=smallCheckpoint+1;while(small<prob_.size()&&(prob_[small]>=avg||alias_[small]!=unassigned))++small;smallCheckpoint=small;}}for(size_tx=0;x<unassigned;++x){if(alias_[x]==unassigned){prob_[x]=1.0;alias_[x]=x;}}prob_*=prob_.size();}': True}),
+    ('projectOverflowSafe', CPP, r'ProbabilityVector\s+projectToProbability\s*\(\s*const\s+Vector\s*&\s*v\s*\)\s*\{', {
+        '{ProbabilityVectorretval(v.size());doublesum=0.0;size_tcount=0;for(autoi=0;i<v.size();++i){if(v[i]<0.0)retval[i]=0.0;else{retval[i]=1.0;++count;sum+=v[i];}}if(checkEqualSmall(sum,1.0)){retval.array()*=v.array();}elseif(checkEqualSmall(sum,0.0)){retval.fill(1.0/v.size());}elseif(sum>1.0){retval.array()*=v.array()/sum;}else{constautodiff=(1.0-sum)/count;retval.array()*=(v.array()+diff);}returnretval;}': False,
+        '{ProbabilityVectorretval(v.size());doublesum=0.0;size_tcount=0;for(autoi=0;i<v.size();++i){if(v[i]<0.0)retval[i]=0.0;else{retval[i]=1.0;++count;sum+=v[i];}}if(checkEqualSmall(sum,1.0)){retval.array()*=v.array();}elseif(checkEqualSmall(sum,0.0)){retval.fill(1.0/v.size());}elseif(sum>1.0){if(std::isinf(sum)){retval.array()*=v.array()/v.maxCoeff();retval/=retval.sum();}elseretval.array()*=v.array()/sum;}else{constautodiff=(1.0-sum)/count;retval.array()*=(v.array()+diff);}returnretval;}': True}),
+    ('voseConstructor', CPP, r'VoseAliasSampler::VoseAliasSampler\s*\(\s*const\s+ProbabilityVector\s*&\s*p\s*\)\s*:.*?\{', {
+        '{constsize_tunassigned=prob_.size();constautoavg=1.0/prob_.size();autosmall=0,large=0;while(small<prob_.size()&&prob_[small]>=avg)++small;while(large<prob_.size()&&prob_[large]<avg)++large;autosmallCheckpoint=small;while(small<prob_.size()&&large<prob_.size()){prob_[large]=(prob_[large]+prob_[small])-avg;alias_[small]=large;if(prob_[large]<avg){small=large;++large;while(large<prob_.size()&&prob_[large]<avg)++large;}else{small=smallCheckpoint+1;while(small<prob_.size()&&(prob_[small]>=avg||alias_[small]!=unassigned))++small;smallCheckpoint=small;}}for(size_tx=0;x<unassigned;++x){if(alias_[x]==unassigned){prob_[x]=1.0;alias_[x]=x;}}prob_*=prob_.size();}': None}),
+    # round 2: the model objects' sampling functions and the gamma-based samplers (single modelled form each)
+    ('mdpSampleSR', 'src/MDP/Model.cpp', r'Model::sampleSR\s*\(\s*const\s+size_t\s+s\s*,\s*const\s+size_t\s+a\s*\)\s*const\s*\{', {
+        '{size_ts1=sampleProbability(S,transitions_[a].row(s),rand_);returnstd::make_tuple(s1,rewards_(s,a));}': None}),
+    ('mdpSparseSampleSR', 'src/MDP/SparseModel.cpp', r'SparseModel::sampleSR\s*\(\s*const\s+size_t\s+s\s*,\s*const\s+size_t\s+a\s*\)\s*const\s*\{', {
+        '{constsize_ts1=sampleProbability(S,transitions_[a].row(s),rand_);returnstd::make_tuple(s1,getExpectedReward(s,a,s1));}': None}),
+    ('pomdpSampleSOR', 'include/AIToolbox/POMDP/Model.hpp', r'Model<M>::sampleSOR\s*\(\s*const\s+size_t\s+s\s*,\s*const\s+size_t\s+a\s*\)\s*const\s*\{', {
+        '{constauto[s1,r]=this->sampleSR(s,a);constautoo=sampleProbability(O,observations_[a].row(s1),rand_);returnstd::make_tuple(s1,o,r);}': None}),
+    ('pomdpSampleOR', 'include/AIToolbox/POMDP/Model.hpp', r'Model<M>::sampleOR\s*\(\s*const\s+size_t\s+s\s*,\s*const\s+size_t\s+a\s*,\s*const\s+size_t\s+s1\s*\)\s*const\s*\{', {
+        '{constsize_to=sampleProbability(O,observations_[a].row(s1),rand_);constdoubler=this->getExpectedReward(s,a,s1);returnstd::make_tuple(o,r);}': None}),
+    ('pomdpSparseSampleSOR', 'include/AIToolbox/POMDP/SparseModel.hpp', r'SparseModel<M>::sampleSOR\s*\(\s*const\s+size_t\s+s\s*,\s*const\s+size_t\s+a\s*\)\s*const\s*\{', {
+        '{constauto[s1,r]=this->sampleSR(s,a);constautoo=sampleProbability(O,observations_[a].row(s1),rand_);returnstd::make_tuple(s1,o,r);}': None}),
+    ('pomdpSparseSampleOR', 'include/AIToolbox/POMDP/SparseModel.hpp', r'SparseModel<M>::sampleOR\s*\(\s*const\s+size_t\s+s\s*,\s*const\s+size_t\s+a\s*,\s*const\s+size_t\s+s1\s*\)\s*const\s*\{', {
+        '{constsize_to=sampleProbability(O,observations_[a].row(s1),rand_);constdoubler=this->getExpectedReward(s,a,s1);returnstd::make_tuple(o,r);}': None}),
+    ('coopSampleSR', 'src/Factored/MDP/CooperativeModel.cpp', r'double\s+CooperativeModel::sampleSR\s*\(\s*const\s+State\s*&\s*s\s*,\s*const\s+Action\s*&\s*a\s*,\s*State\s*\*\s*s1p\s*\)\s*const\s*\{', {
+        '{constauto&tProbs=transitions_.transitions;constauto&S=graph_.getS();State&s1=*s1p;for(size_ti=0;i<S.size();++i){constautoj=graph_.getId(i,s,a);s1[i]=sampleProbability(S[i],tProbs[i].row(j),rand_);}returnrewards_.getValue(S,graph_.getA(),s,a);}': None}),
+    ('coopSampleSRs', 'src/Factored/MDP/CooperativeModel.cpp', r'void\s+CooperativeModel::sampleSRs\s*\(\s*const\s+State\s*&\s*s\s*,\s*const\s+Action\s*&\s*a\s*,\s*State\s*\*\s*s1p\s*,\s*Rewards\s*\*\s*rp\s*\)\s*const\s*\{', {
+        '{assert(s1p);assert(rp);auto&s1=*s1p;auto&rews=*rp;constauto&tProbs=transitions_.transitions;constauto&S=graph_.getS();for(size_ti=0;i<S.size();++i){constautoj=graph_.getId(i,s,a);s1[i]=sampleProbability(S[i],tProbs[i].row(j),rand_);}for(size_ti=0;i<rewards_.bases.size();++i){constauto&e=rewards_.bases[i];constautofid=toIndexPartial(e.tag,S,s);constautoaid=toIndexPartial(e.actionTag,graph_.getA(),a);rews[i]=e.values(fid,aid);}}': None}),
+    ('ddnGetIds', 'src/Factored/Utils/BayesianNetwork.cpp', r'DDNGraph::getIds\s*\(\s*const\s+size_t\s+feature\s*,\s*const\s+State\s*&\s*s\s*,\s*const\s+Action\s*&\s*a\s*\)\s*const\s*\{', {
+        '{constautoactionId=toIndexPartial(parents_[feature].agents,A,a);constauto&features=parents_[feature].features[actionId];constautoparentId=toIndexPartial(features,S,s);return{parentId,actionId};}': None}),
+    ('ddnGetId', 'src/Factored/Utils/BayesianNetwork.cpp', r'DDNGraph::getId\s*\(\s*const\s+size_t\s+feature\s*,\s*size_t\s+parentId\s*,\s*size_t\s+actionId\s*\)\s*const\s*\{', {
+        '{returnstartIds_[feature][actionId]+parentId;}': None}),
+    ('ddnTransitionProbability', 'src/Factored/Utils/BayesianNetwork.cpp', r'DDN::getTransitionProbability\s*\(\s*const\s+Factors\s*&\s*s\s*,\s*const\s+Factors\s*&\s*a\s*,\s*const\s+Factors\s*&\s*s1\s*\)\s*const\s*\{', {
+        '{doubleretval=1.0;for(size_ti=0;i<graph.getS().size();++i){retval*=transitions[i](graph.getId(i,s,a),s1[i]);}returnretval;}': None}),
+    ('factoredMatrixGetValue', 'src/Factored/Utils/FactoredMatrix.cpp', r'FactoredMatrix2D::getValue\s*\(\s*const\s+Factors\s*&\s*space\s*,\s*const\s+Factors\s*&\s*actions\s*,\s*const\s+Factors\s*&\s*value\s*,\s*const\s+Factors\s*&\s*action\s*\)\s*const\s*\{', {
+        '{doubleretval=0.0;for(constauto&e:bases){constautofid=toIndexPartial(e.tag,space,value);constautoaid=toIndexPartial(e.actionTag,actions,action);retval+=e.values(fid,aid);}returnretval;}': None}),
+    ('dirichletLogSpace', 'include/AIToolbox/Utils/Probability.hpp', r'void\s+sampleDirichletDistribution\s*\(\s*const\s+TIn\s*&\s*params\s*,\s*G\s*&\s*generator\s*,\s*TOut\s*&&\s*out\s*\)\s*\{', {
+        '{assert(params.size()==out.size());doublesum=0.0;for(size_ti=0;i<static_cast<size_t>(params.size());++i){std::gamma_distribution<double>dist(params[i],1.0);out[i]=dist(generator);sum+=out[i];}out/=sum;}': False,
+        '{assert(params.size()==out.size());doublemax=-std::numeric_limits<double>::infinity();for(size_ti=0;i<static_cast<size_t>(params.size());++i){out[i]=sampleLogGammaDistribution(params[i],generator);max=std::max(max,out[i]);}doublesum=0.0;for(size_ti=0;i<static_cast<size_t>(params.size());++i){out[i]=std::exp(out[i]-max);sum+=out[i];}out/=sum;}': True}),
+    ('betaLogSpace', 'include/AIToolbox/Utils/Probability.hpp', r'double\s+sampleBetaDistribution\s*\(\s*double\s+a\s*,\s*double\s+b\s*,\s*G\s*&\s*generator\s*\)\s*\{', {
+        '{std::gamma_distribution<double>dista(a,1.0);std::gamma_distribution<double>distb(b,1.0);constautoX=dista(generator);constautoY=distb(generator);returnX/(X+Y);}': False,
+        '{constautologX=sampleLogGammaDistribution(a,generator);constautologY=sampleLogGammaDistribution(b,generator);constautom=std::max(logX,logY);constautoX=std::exp(logX-m);constautoY=std::exp(logY-m);returnX/(X+Y);}': True}),
 ]
 
 # the member initialisers of the Vose constructor belong to the modelled form as well
-VOSE_INIT = {False: 'prob_(p),alias_(prob_.size()),sampleDistribution_(0,prob_.size())',
-             True: 'prob_(p),alias_(prob_.size(),prob_.size()),sampleDistribution_(0,prob_.size())'}
+VOSE_INIT = 'prob_(p),alias_(prob_.size(),prob_.size()),sampleDistribution_(0,prob_.size())'
 
 
 def gen_c08_variant():
-    srcs = {HPP: E.strip_comments(E.read(HPP)), CPP: E.strip_comments(E.read(CPP))}
+    srcs = {}
+    for _n, rel, _p, _f in SITES:
+        if rel not in srcs:
+            srcs[rel] = E.strip_comments(E.read(rel))
     rows, errs = [], []
     for name, rel, pat, forms in SITES:
         body, ln = _body(srcs[rel], pat, name)
@@ -68,9 +100,9 @@ def gen_c08_variant():
             errs.append(f'{name} ({rel}:{ln}) is not in a modelled form')
             continue
         val = forms[nb]
-        if name == 'voseFixed':
+        if name == 'voseConstructor':
             m = E.find1(r'VoseAliasSampler::VoseAliasSampler\s*\(\s*const\s+ProbabilityVector\s*&\s*p\s*\)\s*:(.*?)\{', srcs[rel], 'VoseAliasSampler initialisers', re.S)
-            if _norm(m.group(1)) != VOSE_INIT[val]:
+            if _norm(m.group(1)) != VOSE_INIT:
                 errs.append(f'VoseAliasSampler member initialisers ({rel}:{ln}) do not match the constructor body form')
                 continue
         rows.append((name, val, rel, ln))
@@ -78,6 +110,22 @@ def gen_c08_variant():
     m = re.search(r'static\s+std::uniform_real_distribution<double>\s+probabilityDistribution\s*\(\s*0\.0\s*,\s*1\.0\s*\)\s*;', srcs[HPP])
     if not m:
         errs.append('probabilityDistribution is no longer uniform_real_distribution<double>(0.0, 1.0)')
+    # fixes/C08-6: when Dirichlet/Beta use the log-space helper, the helper must be the form the harness replays
+    vals = {n: v for n, v, _r, _l in rows}
+    if vals.get('dirichletLogSpace') != vals.get('betaLogSpace'):
+        errs.append('sampleDirichletDistribution and sampleBetaDistribution are in different (plain / log-space) forms')
+    elif vals.get('dirichletLogSpace'):
+        try:
+            hb, _ = _body(srcs[HPP], r'double\s+sampleLogGammaDistribution\s*\(\s*const\s+double\s+shape\s*,\s*G\s*&\s*generator\s*\)\s*\{', 'sampleLogGammaDistribution')
+            if _norm(hb) != '{if(shape>=1.0){std::gamma_distribution<double>dist(shape,1.0);returnstd::log(dist(generator));}std::gamma_distribution<double>dist(shape+1.0,1.0);constdoubleg=dist(generator);constdoubleu=1.0-probabilityDistribution(generator);returnstd::log(g)+std::log(u)/shape;}':
+                errs.append('sampleLogGammaDistribution is not in the modelled form')
+        except E.ExtractError as e:
+            errs.append(str(e))
+    # DDNGraph::push: the running-sum construction of startIds_ (modelled by ddnStartIds)
+    bn = E.strip_comments(E.read('src/Factored/Utils/BayesianNetwork.cpp'))
+    mm = re.search(r'size_t\s+newStartId\s*=\s*0;.*?newStartIds\.back\(\)\s*=\s*newStartId;', bn, re.S)
+    if not mm or _norm(mm.group(0)) != 'size_tnewStartId=0;for(size_ti=0;i<newParents.features.size();++i){newStartIds[i]=newStartId;newStartId+=factorSpacePartial(newParents.features[i],S);}newStartIds.back()=newStartId;':
+        errs.append('DDNGraph::push: startIds_ construction is not in the modelled form')
     if errs:
         raise E.ExtractError('; '.join(errs))
     out = ['/- GENERATED by tools/extract_c08.py from the library source — do not edit. -/', 'namespace AITB.Gen.C08', '']
